@@ -218,6 +218,9 @@ def scan_dbc(run, contents, case):
         return False
     for m in db.messages:
         own = mine[m.frame_id]
+        if m.length > 8:
+            run.violation("generated DBC describes message %s with %d bytes: it does not fit a CAN frame" % (m.name, m.length), case)
+            return False
         sigs = []
         for s in m.signals:
             o = own["signals"][s.name]
@@ -262,6 +265,9 @@ def scan_c(run, source, case):
             n += 1
         for owner, sigs in per.items():
             dlc = msgs[owner][1]
+            if dlc > 8:
+                run.violation("generated C describes message %s with DLC %d: it does not fit a CAN frame" % (owner, dlc), case)
+                return False
             sigs.sort()
             for s0, s1, nm in sigs:
                 if s1 > 8 * dlc:
@@ -276,6 +282,29 @@ def scan_c(run, source, case):
         run.inconclusive_because("no signal macros found in generated C (scanner out of date)")
         return False
     return True
+
+
+def loose(run, decls, what, root):
+    """Generation may succeed or fail; whatever is emitted must pass the extent / overlap scanners."""
+    text = S.print_schema(decls)
+    case = {"schema": text, "what": what}
+    res = CC.parse(text)
+    if res.is_err():
+        run.violation("front end rejected the schema: %r" % (res.err(),), case)
+        return
+    kind, out = attempt_dbc(res.unwrap())
+    if kind == "files":
+        for f in out:
+            if not scan_dbc(run, str(f["contents"]), dict(case, dbc=str(f["contents"]))):
+                return
+    res_c, raised, before, after, muts, out_dir = attempt_c(CC.parse(text).unwrap(), root)
+    if raised is None and type(res_c).__name__ == "Ok":
+        for fn in sorted(os.listdir(out_dir)):
+            if fn.endswith("_can.c"):
+                if not scan_c(run, open(os.path.join(out_dir, fn)).read(), dict(case, file=fn)):
+                    return
+    run.count("loose_scans")
+    run.case(sig="loose|" + what.split(" on ")[0][:40] + "|%s|%s" % (kind, type(res_c).__name__))
 
 
 def judge(run, decls, expect_reject, what, root, scan=True, warm_up=False):
@@ -403,6 +432,34 @@ def run(run):
             else:
                 run.count("bigendian_refused")
                 run.case(sig="big-endian|refused|%s" % type(out).__name__)
+        # oversize bindings on a protocol that is merely SPELLED like can ("CAN", "Can"): whether or not a
+        # back end treats them as CAN bindings, nothing it emits may describe a message beyond 64 bits
+        for k, proto in enumerate(["CAN", "Can", "cAn"] * run.pick(1, 4)):
+            idx += 1
+            if not run.mine(idx):
+                continue
+            r = run.rng("protocase", k)
+            total = r.choice([65, 66, 70, 72, 96])
+            decls = sized_struct(r, "Big", total, r.choice(["first", "last", "array"]))
+            b = can_impl("Big", 100)
+            b["protocol"] = proto
+            body = good_bindings(r, 2, 200) + decls + [b]
+            loose(run, body, "oversize %d bits on protocol spelled %s" % (total, proto), root)
+        # signal blocks with the documented 'bitstart' key (any value): the layout is fixed by the field
+        # ids, so the emitted signals must still be inside the message and apart
+        for k in range(run.pick(40, 600)):
+            idx += 1
+            if not run.mine(idx):
+                continue
+            r = run.rng("bitstart", k)
+            decls = cansch.gen_can_schema(r, prefix="P", flat=True, big_endian=False, mux=False, devices=True, floats=True, buses=True)
+            decls = [d for d in decls if not (d["kind"] == "impl" and d["protocol"] != "can")]
+            sdecl = {d["name"]: d for d in decls if d["kind"] == "struct"}
+            for d in decls:
+                if d["kind"] == "impl":
+                    for f in r.sample(sdecl[d["type"]]["fields"], min(2, len(sdecl[d["type"]]["fields"]))):
+                        d["items"].append(("signal", f["name"], [("bitstart", r.choice([0, 1, 8, 56, 60, 63, 64, 70, 100]))]))
+            loose(run, decls, "signal blocks with a bitstart key", root)
         # positive scans over random fitting flat CAN schemas (the C generator's subset)
         n = run.pick(150, 2500)
         for i in range(n):
@@ -418,7 +475,7 @@ def run(run):
 
 
 def conclude(run):
-    run.require("dbc_attempts", "dbc_rejections", "c_attempts", "c_rejections", "dbc_messages_scanned", "c_messages_scanned", "c_attempts_on_a_reused_manager")
+    run.require("dbc_attempts", "dbc_rejections", "c_attempts", "c_rejections", "dbc_messages_scanned", "c_messages_scanned", "c_attempts_on_a_reused_manager", "loose_scans")
 
 
 def replay(run, case):
